@@ -378,6 +378,10 @@ def c17():
                         about='every sequence of %d operations (13 kinds, symbolic choice, operands and offsets) over 3 wrapper slots and 2 buffers; shadow raw pointers; %s' %
                               (steps, 'all observers after every step' if cfg == 'base' else 'assertion-enabled build: ghost registry == multiset of live non-null wrappers after every step'),
                         bounds={'steps': steps, 'slots': 3, 'buffers': 2, 'buffer_len': 8}))
+    us = U('qptr.cpp', 'debug', defines=['STEPS=3', 'NSLOT=2', 'NBUF=1', 'BUFSZ=2'], extra_glue=['qptr_glue.c'], extern_c=QPTR_EXT)
+    qs.append(Query('qptr-seq-debug-3-small', us, 'h_qptr_seq', unwind=14, replay='none', trace=False, weight=3,
+                    about='assertion-enabled build: every sequence of 3 operations over 2 wrapper slots and one 2-byte buffer; ghost registry == live non-null wrappers after every step',
+                    bounds={'steps': 3, 'slots': 2, 'buffers': 1, 'buffer_len': 2}))
     for cfg in ('base', 'debug'):
         u = U('qptr.cpp', cfg, defines=['STEPS=1'], extra_glue=['qptr_glue.c'], extern_c=QPTR_EXT)
         qs.append(Query('qptr-span-' + cfg, u, 'h_qptr_span', unwind=14, replay='native' if cfg == 'base' else 'none',
@@ -389,7 +393,163 @@ def c17():
                  explanation='Bounded sequences (2-4 steps) of the 13 wrapper operations with symbolic choice at every step, compared with a shadow model after every step.')
 
 
-REGISTRY = {'C17': c17, 'C08': c08, 'C10': c10, 'C13': c13, 'C16': c16, 'C02': c02, 'C01': c01, 'C07': c07, 'C11': c11, 'C12': c12, 'C15': c15}
+OLC_SCEN = {  # scenario -> (max preemption index explored = atomic accesses of thread A's operation + margin; what it exercises)
+    'c_get_k1_rem_k0': (45, 'reader inside the inner node onto which a two-child root collapses'),
+    'c_get_k2_rem_k0': (45, 'reader inside the inner node onto which a two-child root collapses (other leaf)'),
+    'c_get_k0_rem_k1': (45, 'reader of the sibling leaf while the inner two-child node collapses onto a leaf'),
+    'c_get_k2_rem_k1': (45, 'reader of the surviving leaf while its two-child parent collapses'),
+    'c_rem_k1_rem_k0': (80, 'two removers: collapse onto a leaf racing with collapse of the root'),
+    'c_ins_rem_k0': (80, 'insert into the inner node while the root collapses onto it'),
+    'g_ins5_rem1': (80, 'insert that must grow a full I4 racing with the removal of a sibling'),
+    'g_get3_ins5': (45, 'reader while the node grows I4 -> I16'),
+    'g_ins5_ins6': (80, 'two inserts into a full I4'),
+    'g_ins5_ins5': (80, 'two inserts of the same key: exactly one succeeds'),
+    's_get2_rem5': (45, 'reader while the node shrinks I16 -> I4'),
+    's_rem1_rem5': (80, 'two removes at the shrink boundary'),
+    's_rem3_rem3': (80, 'two removes of the same key: exactly one succeeds'),
+    'l_get_ins': (45, 'reader of a root leaf while it is split'),
+    'l_get_rem': (45, 'reader of a root leaf while it is removed (root replacement)'),
+    'l_ins_ins_split': (80, 'two leaf splits of the root leaf'),
+    'p_get_split': (45, 'reader below a key-prefix split'),
+    'p_rem_split': (80, 'remove below a key-prefix split'),
+    'p_get_rem_sib': (45, 'reader while the sibling is removed and the two-child root collapses onto its leaf'),
+}
+OLC_QUICK = {'C03': {'c_get_k1_rem_k0', 'g_ins5_rem1', 'g_ins5_ins5', 'l_get_rem', 's_get2_rem5'}, 'C04': {'c_get_k1_rem_k0', 'l_get_rem', 's_get2_rem5'}, 'C14': {'g_ins5_rem1', 'c_ins_rem_k0'}}
+OLC_KNOWN = {}    # (scenario, k) -> known finding id; filled from known_findings.txt ids below
+
+
+def olc_wrappers():
+    import os
+    d = os.path.join(os.path.dirname(os.path.dirname(os.path.abspath(__file__))), '_work', 'gen')
+    os.makedirs(d, exist_ok=True)
+    p = os.path.join(d, 'olc_wrappers.c')
+    lines = ['/* generated by engine/checks.py: one entry per (scenario, preemption index) */', 'static uint64_t ir2c_fixed_k;', 'uint64_t verif_fixed_k(void) { return ir2c_fixed_k; }']
+    for s, (kmax, _) in OLC_SCEN.items():
+        lines.append('void %s(void);' % s)
+        for k in range(kmax + 1):
+            lines.append('void %s__k%d(void) { ir2c_fixed_k = %d; %s(); }' % (s, k, k, s))
+    txt = '\n'.join(lines) + '\n'
+    if not os.path.exists(p) or open(p).read() != txt:
+        open(p, 'w').write(txt)
+    return p
+
+
+def olc_queries(pid, tier_all=None):
+    u = U('olc_conc.cpp', 'nostats', max_node_type=2, yield_in='unodb::', extra_glue=[olc_wrappers()], extern_c=['verif_fixed_k'])
+    qs = []
+    for s, (kmax, what) in OLC_SCEN.items():
+        for k in range(kmax + 1):
+            qs.append(Query('%s__k%d' % (s, k), u, '%s__k%d' % (s, k), unwind=12, checks='pointer', replay='none', trace=False, flags=['--slice-formula'],
+                            tier=tier_all or ('quick' if s in OLC_QUICK[pid] else 'thorough'), known=OLC_KNOWN.get((s, k)),
+                            about='thread A preempted before its %d-th atomic access by one complete operation of thread B: %s' % (k, what) if k else 'no preemption (B after A): ' + what,
+                            bounds={'scenario': s, 'preemption_index': k, 'preemptions': 1, 'threads': 2}))
+    return qs
+
+
+OLC_ASSUME = ['own sequentialisation: two simulated threads in one sequential program, each with its own QSBR registration; thread A has a preemption point before EVERY atomic access (inserted by the translator '
+              'in all unodb:: functions); at the chosen point thread B runs ONE complete operation (preemption bound 1; B is not preempted); sequential consistency',
+              'the preemption index is enumerated exhaustively (one CBMC run per index; every run is fully decided by CBMC symbolic execution with pointer/deallocation checks; the SAT instances are trivial). '
+              'A symbolic preemption index was measured out of reach: path-wise > 1200 s per scenario, merged: symbolic execution does not finish in 900 s',
+              'scenario list: concrete trees and keys, one per structural change (collapse onto inner node / onto leaf, growth, shrink, leaf split, root replacement, prefix split) x {reader, second writer, same-key race}',
+              'a spinning thread cannot occur: the preempting operation always runs to completion']
+
+
+def c03():
+    return Check('C03', 'exploration', olc_queries('C03'), assumptions=OLC_ASSUME,
+                 explanation='Results of two overlapping operations (and the final content) must equal those of one of their two sequential orders, for every preemption point of thread A. '
+                             'Not covered: more than one preemption, three or more threads, interleavings in which the preempting operation is itself preempted, weak memory.')
+
+
+def c04():
+    return Check('C04', 'exploration', olc_queries('C04'), assumptions=OLC_ASSUME + ['CBMC pointer checks: any dereference of a deallocated or out-of-bounds object on any explored schedule fails; '
+                 'the value view obtained by a preempted get() is re-read after the competing remove and before the reader quiesces; after both threads quiesced twice nothing retired may remain allocated (live block count)'],
+                 explanation='Same schedules as C03 with the real QSBR code (two registrations): no access to reclaimed memory, views stay valid until the quiescent state.')
+
+
+def c14():
+    return Check('C14', 'exploration', olc_queries('C14'), assumptions=OLC_ASSUME + ['after every schedule a sweep (get of every key, insert+remove next to every key) must complete within the unwinding bound of the restart loops: '
+                 'a lock left held makes the sweep spin past the bound, which is reported'],
+                 explanation='No lock left held after any explored schedule; wait cycles among three or more threads are outside the bound (deadlock-freedom proper is not decided).')
+
+
+QSBR_SCEN = {  # scenario -> (max preemption index, what)
+    'q_leave_orphan': (60, 'a thread leaves (advancing the epoch) while a departed thread has an orphaned request and a third thread has not quiesced since the retire'),
+    'q_leave_orphan4': (60, 'same with four threads and two earlier departures'),
+    'q_epoch_vs_2pause': (60, 'the last quiescent state of an epoch (epoch change, orphan ageing) preempted by two departures that orphan requests'),
+    'q_epoch_vs_2pause_prev': (60, 'epoch change preempted by two departures holding previous-interval requests while an older orphaned list is aged (tail-append fallback of the orphan hand-over)'),
+    'q_epoch_vs_pause': (60, 'epoch change preempted by one departure with pending requests; three-round bound'),
+    'q_pause_vs_retire': (60, 'a departure that advances the epoch preempted by retires of the others'),
+    'q_pause_vs_q': (60, 'a departure preempted by quiescent states of the others; three-round bound'),
+    'q_retire_vs_epoch': (40, 'a retire preempted by an epoch change completed by the others'),
+    'q_resume_vs_q': (40, 'a resume (re-registration) preempted by quiescent states of the others'),
+    'q_resume_vs_retire': (40, 'a resume preempted by a retire and quiescent states'),
+    'q_q_vs_pause': (60, 'a quiescent state preempted by a departure with pending requests'),
+    'q_q_vs_resume': (60, 'a quiescent state preempted by a resume and a retire'),
+}
+QSBR_QUICK = {'q_leave_orphan', 'q_epoch_vs_2pause_prev', 'q_pause_vs_retire', 'q_resume_vs_q', 'q_q_vs_pause'}
+
+
+def qsbr_wrappers():
+    import os
+    d = os.path.join(os.path.dirname(os.path.dirname(os.path.abspath(__file__))), '_work', 'gen')
+    os.makedirs(d, exist_ok=True)
+    p = os.path.join(d, 'qsbr_wrappers.c')
+    lines = ['/* generated by engine/checks.py */', 'static uint64_t ir2c_fixed_k;', 'uint64_t verif_fixed_k(void) { return ir2c_fixed_k; }']
+    for s, (kmax, _) in QSBR_SCEN.items():
+        lines.append('void %s(void);' % s)
+        for k in range(kmax + 1):
+            lines.append('void %s__k%d(void) { ir2c_fixed_k = %d; %s(); }' % (s, k, k, s))
+    txt = '\n'.join(lines) + '\n'
+    if not os.path.exists(p) or open(p).read() != txt:
+        open(p, 'w').write(txt)
+    return p
+
+
+def qsbr_queries(pid, tier_all=None):
+    qs = []
+    for cfg in ('nostats', 'nsdebug'):
+        u = U('qsbr_conc.cpp', cfg, yield_in='unodb::', extra_glue=[qsbr_wrappers()], extern_c=['verif_fixed_k'], noinline=['@_ZN5unodb4qsbr10deallocateEPv'],
+              entry_hooks=[(r'^unodb::qsbr::deallocate\(void\*', 'verif_on_free(v_0);')])
+        for s, (kmax, what) in QSBR_SCEN.items():
+            for k in range(kmax + 1):
+                quick = cfg == 'nostats' and s in QSBR_QUICK
+                qs.append(Query('%s__k%d%s' % (s, k, '' if cfg == 'nostats' else '-dbg'), u, '%s__k%d' % (s, k), unwind=10, checks='pointer', replay='none', trace=False, flags=['--slice-formula'],
+                                tier=tier_all or ('quick' if quick else 'thorough'),
+                                about=('the call of thread A preempted before its %d-th atomic access by the script of the other threads: %s' % (k, what)) if k else 'no preemption: ' + what,
+                                bounds={'scenario': s, 'preemption_index': k, 'preemptions': 1, 'threads': '3-4', 'assertions': cfg == 'nsdebug'}))
+    return qs
+
+
+def qstate_queries():
+    qs = []
+    for cfg in ('nostats', 'nsdebug'):
+        u = U('qstate.cpp', cfg)
+        for h in ('h_state_getters', 'h_state_inc_dec', 'h_state_epoch'):
+            qs.append(Query('%s-%s' % (h[2:], cfg), u, h, unwind=5, about='QSBR state word transition functions for ALL 64-bit words satisfying the invariant' + (' (library assertions enabled)' if cfg == 'nsdebug' else ''),
+                            bounds={'inputs': 'full 64-bit word'}))
+    return qs
+
+
+QSBR_ASSUME = ['own sequentialisation: 3-4 simulated threads (one qsbr_per_thread each) in one sequential program; thread A\'s call has a preemption point before EVERY atomic access of unodb:: code; at the chosen point '
+               'the other threads run a scripted sequence of complete calls (preemption bound 1); sequential consistency; the preemption index is enumerated exhaustively, each run decided by CBMC symbolic execution '
+               '(pointer/deallocation checks on). A symbolic call-level program (3 threads, 2-3 steps, merged) exhausts 24 GB - measured - and is not part of the claim',
+               'ghost bookkeeping: a retired block waits for every thread other than the requester that was registered (not paused) when the request was made; a thread stops being waited for when it starts a quiescent(), '
+               'pause or exit call; every free performed by QSBR is intercepted by an assertion injected at the entry of qsbr::deallocate(void*)',
+               'statistics-free build (the Boost.Accumulators statistics are not encoded); exit is modelled by pause (what the destructor does)',
+               'scenario list, not all programs: see QSBR_SCEN in engine/checks.py']
+
+
+def c05():
+    return Check('C05', 'exploration', qstate_queries() + qsbr_queries('C05'), assumptions=QSBR_ASSUME,
+                 explanation='L1: state-word arithmetic for all words (SAT). Scenarios: no free while a thread registered at request time has yet to quiesce/pause/exit, for every preemption point of the racing call.')
+
+
+def c06():
+    return Check('C06', 'exploration', qstate_queries() + qsbr_queries('C06'), assumptions=QSBR_ASSUME,
+                 explanation='Exactly-once execution of every deferred deallocation after the drain, thread-count getter vs ghost count at every call boundary, three-round bound, empty lists after the drain, for every preemption point.')
+
+
+REGISTRY = {'C05': c05, 'C06': c06, 'C03': c03, 'C04': c04, 'C14': c14, 'C17': c17, 'C08': c08, 'C10': c10, 'C13': c13, 'C16': c16, 'C02': c02, 'C01': c01, 'C07': c07, 'C11': c11, 'C12': c12, 'C15': c15}
 
 
 def get(pid):
